@@ -58,12 +58,63 @@ def teardown(_):
     C.rm_tree(_dir)
 
 
-def run_cli(args):
+def run_cli(args, expect=None):
     from click.testing import CliRunner
     from haptools.__main__ import main
 
-    r = CliRunner().invoke(main, [str(a) for a in args], catch_exceptions=True)
-    return {"exit": r.exit_code, "usage_error": r.exit_code == 2, "exc": type(r.exception).__name__ if r.exception and not isinstance(r.exception, SystemExit) else None}
+    glue = None
+    if expect is None:
+        r = CliRunner().invoke(main, [str(a) for a in args], catch_exceptions=True)
+    else:
+        # the call boundary: the command line must hand its entry point exactly the parameters the user gave (and the
+        # documented defaults for everything else) – recorded by wrapping the entry point while the command runs
+        import importlib
+        import inspect
+
+        modname, fname, kwargs, ignore = expect
+        mod = importlib.import_module(modname)
+        orig = getattr(mod, fname)
+        calls = []
+
+        def wrapper(*a, **k):
+            b = inspect.signature(orig).bind(*a, **k)
+            b.apply_defaults()
+            calls.append(dict(b.arguments))
+            return orig(*a, **k)
+
+        setattr(mod, fname, wrapper)
+        try:
+            r = CliRunner().invoke(main, [str(a) for a in args], catch_exceptions=True)
+        finally:
+            setattr(mod, fname, orig)
+        if len(calls) == 1:
+            want = inspect.signature(orig).bind(**kwargs)
+            want.apply_defaults()
+            diffs = []
+            for name, w in want.arguments.items():
+                if name in ignore:
+                    continue
+                g = calls[0].get(name)
+                if _canon_arg(g) != _canon_arg(w):
+                    diffs.append(f"{name}: the command line passes {g!r}, the options given mean {w!r}")
+            glue = "; ".join(diffs) or None
+        elif len(calls) > 1:
+            glue = f"{fname} was called {len(calls)} times"
+    return {"exit": r.exit_code, "usage_error": r.exit_code == 2, "exc": type(r.exception).__name__ if r.exception and not isinstance(r.exception, SystemExit) else None, "glue": glue}
+
+
+def _canon_arg(v):
+    from pathlib import Path as _P
+
+    if isinstance(v, (set, frozenset)):
+        return ["set"] + sorted(map(str, v))
+    if isinstance(v, (list, tuple)):
+        return ["seq"] + [str(x) for x in v]
+    if isinstance(v, _P):
+        return str(v)
+    if isinstance(v, float):
+        return repr(float(v))
+    return v
 
 
 def read_vcf(path):
@@ -119,6 +170,9 @@ def gen(rng, tier):
                 smp.append("ghost")
         c["samples"] = smp
         c["sort"] = rng.random() < 0.6
+        # further options that must reach the entry point unchanged (each on its own is exercised elsewhere)
+        pool = {"transform": ["discard_missing", "maf", "chunk"], "simphenotype": ["environment", "prevalence", "no_normalize", "chunk"], "ld": ["discard_missing", "chunk"]}.get(k, [])
+        c["extras"] = sorted(rng.sample(pool, rng.randint(0, len(pool)))) if pool else []
         c["failing"] = k == "index" and rng.random() < 0.5
         c["absent_sample"] = k == "karyogram" and rng.random() < 0.5
         c["absent_name"] = rng.choice(["Sample_9", "Sample", "Sample_", "Sample_1_1", "Sam", "sample_1"])
@@ -142,16 +196,38 @@ def impl(case):
     file_ids = [idfile, write_list(o / "ids.txt", ids)] if ids else []
     file_smp = [sfile, write_list(o / "smp.txt", smp)] if smp else []
     res = {}
+    xargs, xkw = [], {}
+    for e in case.get("extras", []):
+        if e == "discard_missing":
+            xargs += ["--discard-missing"]
+            xkw["discard_missing"] = True
+        elif e == "maf":
+            xargs += ["--maf", "0.05"]
+            xkw["maf"] = 0.05
+        elif e == "chunk":
+            xargs += ["-c" if sh else "--chunk-size", "3"]
+            xkw["chunk_size"] = 3
+        elif e == "environment":
+            xargs += ["-e" if sh else "--environment", "0.4"]
+            xkw["environment"] = 0.4
+        elif e == "prevalence":
+            xargs += ["-p" if sh else "--prevalence", "0.25"]
+            xkw["prevalence"] = 0.25
+        elif e == "no_normalize":
+            xargs += ["--no-normalize"]
+            xkw["normalize"] = False
     if k == "transform":
         from haptools.transform import transform_haps
 
-        res["cli_rep"] = run_cli(["transform", *rep_ids, *rep_smp, "-o", o / "a.vcf", gf, d / "h.hap"])
-        res["cli_file"] = run_cli(["transform", *file_ids, *file_smp, "--output", o / "b.vcf", gf, d / "h.hap"])
+        kw = dict(genotypes=gf, haplotypes=d / "h.hap", samples=set(smp) if smp else None, haplotype_ids=set(ids) if ids else None, **xkw)
+        exp = ("haptools.transform", "transform_haps", dict(kw, output=o / "a.vcf"), {"log", "output"})
+        res["cli_rep"] = run_cli(["transform", *xargs, *rep_ids, *rep_smp, "-o", o / "a.vcf", gf, d / "h.hap"], exp)
+        res["cli_file"] = run_cli(["transform", *xargs, *file_ids, *file_smp, "--output", o / "b.vcf", gf, d / "h.hap"], exp)
         import warnings
 
         with C.capture_logs() as cap, warnings.catch_warnings(record=True) as pyw:
             warnings.simplefilter("always")
-            api = C.guarded(lambda: transform_haps(gf, d / "h.hap", samples=set(smp) if smp else None, haplotype_ids=set(ids) if ids else None, output=o / "c.vcf", log=cap.logger) and None)
+            api = C.guarded(lambda: transform_haps(**kw, output=o / "c.vcf", log=cap.logger) and None)
         res["api_error"] = api
         # a report = a haptools log warning, or the warning cyvcf2 issues for requested samples absent from a VCF
         res["reported"] = any(l == "WARNING" for l, _ in cap.records) or any("requested samples" in str(w.message) for w in pyw)
@@ -182,18 +258,22 @@ def impl(case):
         from haptools.sim_phenotype import simulate_pt
 
         common = ["--seed", "11", "-r" if sh else "--replications", "2", "-h" if sh else "--heritability", "0.5"]
-        res["cli_rep"] = run_cli(["simphenotype", *common, *rep_ids, *rep_smp, "-o", o / "a.pheno", gf, d / "hb.hap"])
-        res["cli_file"] = run_cli(["simphenotype", *common, *file_ids, *file_smp, "--output", o / "b.pheno", gf, d / "hb.hap"])
-        res["api_error"] = C.guarded(lambda: simulate_pt(gf, d / "hb.hap", num_replications=2, heritability=0.5, samples=set(smp) if smp else None, haplotype_ids=set(ids) if ids else None, seed=11, output=o / "c.pheno", log=SD.silent_log()))
+        kw = dict(genotypes=gf, haplotypes=d / "hb.hap", num_replications=2, heritability=0.5, samples=set(smp) if smp else None, haplotype_ids=set(ids) if ids else None, seed=11, **xkw)
+        exp = ("haptools.sim_phenotype", "simulate_pt", dict(kw, output=o / "a.pheno"), {"log", "output"})
+        res["cli_rep"] = run_cli(["simphenotype", *common, *xargs, *rep_ids, *rep_smp, "-o", o / "a.pheno", gf, d / "hb.hap"], exp)
+        res["cli_file"] = run_cli(["simphenotype", *common, *xargs, *file_ids, *file_smp, "--output", o / "b.pheno", gf, d / "hb.hap"], exp)
+        res["api_error"] = C.guarded(lambda: simulate_pt(**kw, output=o / "c.pheno", log=SD.silent_log()))
         res["out"] = [text(o / f) if (o / f).exists() else None for f in ("a.pheno", "b.pheno", "c.pheno")]
     elif k == "ld":
         from haptools.ld import calc_ld
 
         ext = ".ld" if case["from_gts"] else ".hap"
         fg = ["--from-gts"] if case["from_gts"] else []
-        res["cli_rep"] = run_cli(["ld", *fg, *rep_ids, *rep_smp, "-o", o / ("a" + ext), case["target"], gf, d / "h.hap"])
-        res["cli_file"] = run_cli(["ld", *fg, *file_ids, *file_smp, "--output", o / ("b" + ext), case["target"], gf, d / "h.hap"])
-        res["api_error"] = C.guarded(lambda: calc_ld(case["target"], gf, d / "h.hap", samples=set(smp) if smp else None, ids=tuple(ids) if ids else None, from_gts=case["from_gts"], output=o / ("c" + ext), log=SD.silent_log()))
+        kw = dict(target=case["target"], genotypes=gf, haplotypes=d / "h.hap", samples=set(smp) if smp else None, ids=tuple(ids) if ids else None, from_gts=case["from_gts"], **xkw)
+        exp = ("haptools.ld", "calc_ld", dict(kw, output=o / ("a" + ext)), {"log", "output"})
+        res["cli_rep"] = run_cli(["ld", *fg, *xargs, *rep_ids, *rep_smp, "-o", o / ("a" + ext), case["target"], gf, d / "h.hap"], exp)
+        res["cli_file"] = run_cli(["ld", *fg, *xargs, *file_ids, *file_smp, "--output", o / ("b" + ext), case["target"], gf, d / "h.hap"], exp)
+        res["api_error"] = C.guarded(lambda: calc_ld(**kw, output=o / ("c" + ext), log=SD.silent_log()))
         res["out"] = [[l for l in text(o / (f + ext)).splitlines() if not l.startswith("#")] if (o / (f + ext)).exists() else None for f in ("a", "b", "c")]
     elif k == "index":
         import gzip
@@ -279,6 +359,9 @@ def oracle(case, obs):
         if any(obs["out"]):
             return "output was written although both forms of sample selection were given"
         return None
+    for tag, r in (("repeated-option CLI", obs["cli_rep"]), ("file-option CLI", obs["cli_file"])):
+        if isinstance(r, dict) and r.get("glue"):
+            return f"{k}: the {tag} run does not hand its entry point the parameters it was given – {r['glue']}"
     # a failing run exits non-zero; a succeeding one exits zero
     for tag, r, out in (("repeated-option CLI", obs["cli_rep"], a), ("file-option CLI", obs["cli_file"], b)):
         if api_failed and r["exit"] == 0:
@@ -362,7 +445,7 @@ CHECK = Check(
             setup=setup,
             teardown=teardown,
             nontrivial=lambda c, o: C.jdump(c),
-            rule="every subcommand (transform, simphenotype, ld, index, clump, simgenotype, karyogram) through click's CliRunner and through its Python entry point on the same inputs: short and long spellings, --id vs --ids-file and --sample vs --samples-file (ID lists in non-alphabetical order, with unknown entries and duplicates), VCF / PGEN, ld with and without --from-gts and haplotype / variant targets, index with --sort / --no-sort incl. an input tabix refuses, karyogram with an absent sample, both forms of sample selection at once; outputs compared as parsed content (VCF) or text (.pheno, .ld, .hap, .clump, .bp), exit codes recorded",
+            rule="every subcommand (transform, simphenotype, ld, index, clump, simgenotype, karyogram) through click's CliRunner and through its Python entry point on the same inputs: short and long spellings, --id vs --ids-file and --sample vs --samples-file (ID lists in non-alphabetical order, with unknown entries and duplicates), VCF / PGEN, ld with and without --from-gts and haplotype / variant targets, index with --sort / --no-sort incl. an input tabix refuses, karyogram with an absent sample, both forms of sample selection at once; outputs compared as parsed content (VCF) or text (.pheno, .ld, .hap, .clump, .bp), exit codes recorded; for transform, simphenotype and ld the entry point is wrapped while the command runs and every argument it receives (incl. random further options: --discard-missing, --maf, --chunk-size, --environment, --prevalence, --no-normalize) is compared with the parameters the options mean",
         ),
     ],
     trusted=["click's option parsing and exit-code policy (usage errors exit with 2, exceptions with 1)"],
